@@ -345,7 +345,9 @@ Definition attr_skipped (ft : fty) (x : sval) : bool :=
   | _, _ => false
   end.
 
-(* EncodeAsBlock: the label fields, in field order, stringified *)
+(* EncodeAsBlock: the label fields, in field order, stringified (fmt.Sprintf("%s"); a
+   non-string label field — outside wf_schema — would be written as fmt's "%!s(int=7)",
+   which is not modelled: [] here) *)
 Fixpoint labels_of (s : sschema) (fs : list sval) : list (list Z) :=
   match s, fs with
   | f :: s', x :: fs' =>
@@ -433,9 +435,11 @@ Section EncFields.
     end.
 End EncFields.
 
+(* getFieldTags (called by EncodeIntoBody / EncodeAsBlock) panics on a second `remain` tag *)
 Fixpoint enc_body (t : fty) (v : sval) {struct t} : option (list witem) :=
   match t, v with
-  | FStruct s, SStruct fs => enc_fields enc_body s fs false
+  | FStruct s, SStruct fs =>
+      if (1 <? count_remain s)%nat then None else enc_fields enc_body s fs false
   | _, _ => None
   end.
 
